@@ -104,6 +104,8 @@ def st_op(draw, feats):
         return op
     if kind == "log":
         return {"op": "log", "name": draw(st.sampled_from(["l0", "l1", "ü-log"])),
+                # documented input forms: str lines, bytes lines, a single str/bytes
+                "enc": draw(st.sampled_from([0, 0, 1, 2])),
                 "lines": draw(st.one_of(
                     st.lists(st.one_of(LINE, LINE, LONGLINE), min_size=1, max_size=4),
                     LINE.filter(lambda s: True)))}
@@ -325,7 +327,16 @@ def _run(spec, rec, d):
                     rec.cls("kind:" + _kind(f))
                 elif op["op"] == "log":
                     lines = op["lines"]
-                    hw.store_log(op["name"], lines)
+                    enc = op.get("enc", 0)
+                    if enc and isinstance(lines, str):
+                        passed_lines = lines.encode("utf-8")
+                    elif enc:
+                        passed_lines = [x.encode("utf-8") if (enc == 1 or i % 2 == 0)
+                                        else x for i, x in enumerate(lines)]
+                        rec.cls("log-bytes-lines")
+                    else:
+                        passed_lines = lines
+                    hw.store_log(op["name"], passed_lines)
                     ll = [lines] if isinstance(lines, str) else list(lines)
                     nm = op["name"]
                     if mode == "replace" or nm not in model.logs:
